@@ -13,12 +13,12 @@ import os
 
 import numpy as np
 
-from .. import cover, gen
+from .. import core, cover, gen
 
 LEVEL = 'exploration'
 JOBS = {'quick': 4, 'thorough': 16}
 REQUIRED_MONITORS = ('shadow_comparison', 'rigid_operation')
-REQUIRED_CLASSES = ('obj:AtomGro', 'obj:Residue', 'obj:Molecule', 'obj:Molecule-multi-residue', 'src:system', 'system:one-of-two-on-a-shared-handle', 'src:alignment',
+REQUIRED_CLASSES = ('obj:AtomGro', 'obj:Residue', 'obj:Molecule', 'obj:Molecule-multi-residue', 'src:system', 'system:one-of-two-on-a-shared-handle', 'op:move-far', 'settings:warnings-as-errors', 'src:alignment',
                     'src:shipped', 'op:copy', 'op:deep_copy', 'op:move', 'op:move_to', 'op:rotate', 'op:set-positions',
                     'op:set-velocities', 'op:set-velocities-none', 'op:set-ids', 'op:set-resids', 'op:view-index',
                     'op:view-iterate', 'op:view-inplace', 'op:shared-array', 'op:rename-deep-copy', 'op:atoms-property',
@@ -274,7 +274,11 @@ def run_case(ctx, case):
     nontrivial = False
     OPS = ['copy', 'deep_copy', 'move', 'move_to', 'rotate', 'set-positions', 'set-velocities', 'set-velocities-none',
            'set-ids', 'set-resids', 'view-index', 'view-iterate', 'shared-array', 'rename-deep-copy', 'atoms-property',
-           'new-molecule-from-residues', 'view-inplace']
+           'new-molecule-from-residues', 'view-inplace', 'move-far']
+    # the caller may run with warnings turned into errors: the unchanged classes do all of this without a word
+    caller = core.next_settings(ctx, ('default', 'warnings-as-errors'))
+    _settings_cm = core.settings(caller)
+    _settings_cm.__enter__()
     for step in range(nops):
         t = int(rng.integers(0, len(objs)))
         e = objs[t]
@@ -325,6 +329,17 @@ def run_case(ctx, case):
                 ctx.monitor('rigid_operation')
                 if np.abs(obj.geometric_center - p).max() > 1e-9:
                     ctx.violation('move_to-centre-wrong', f'centre at {obj.geometric_center.tolist()} instead of {p.tolist()}')
+            elif op == 'move-far':
+                if k == 'AtomGro' or n < 2:
+                    continue
+                # re-centred ten thousand nanometres away (or a thousand the other way): the atoms end up on both sides of
+                # a power of ten
+                p = np.array([float(rng.choice([10000.0, -1000.0, 100000.0])), 0.0, 0.0]) + rng.normal(size=3) * 0.01
+                c0 = sh['pos'].mean(axis=0)
+                obj.move_to(p)
+                sh['pos'] = sh['pos'] + (p - c0)
+                tol = 1e-7
+                ctx.monitor('rigid_operation')
             elif op == 'rotate':
                 if k == 'AtomGro':
                     continue
@@ -451,7 +466,7 @@ def run_case(ctx, case):
         except Exception as exc:  # noqa
             ctx.violation(f'operation-raises:{op}:{type(exc).__name__}', f'{op} on {e["label"]} ({k}): {exc}', witness={'history': history})
             break
-        if op in ('move', 'move_to', 'rotate', 'set-positions'):
+        if op in ('move', 'move_to', 'move-far', 'rotate', 'set-positions'):
             e['holds_shared_array'] = False
 
         history.append((op, t))
@@ -484,6 +499,7 @@ def run_case(ctx, case):
             p = observe(obj)['pos']
             if len(p) > 1:
                 pass  # implied by the position comparison against the rigid model above
+    _settings_cm.__exit__(None, None, None)
     if system_ref is not None:
         s, kidx, first = system_ref
         again = observe(s[kidx])
